@@ -49,7 +49,7 @@ PROPS["C08"] = {
     "level_note": "Trusted: Lean kernel; factgen constants; the tie is trace validation on generated histories (timing-tolerant, exact in "
                   "value); Go runtime (time.Ticker, net, bufio); int64 wrap-around not modelled; the source is assumed to honour the offset "
                   "it is asked for (a +FULLRESYNC answer to a re-PSYNC is outside the statement).",
-    "rule": "(tagl: the command stream of `tags` with a 70 001-byte and a 1 048 601-byte value in the cycle, cuts before, inside and after them.) (reconnects answered with +CONTINUE and the first 1..5000 backlog bytes in one segment: steps D<k>/X<k>.) inc|cont|full|tags: timed histories (bursts of 1..20000 bytes incl. 8191/8192/8193, idle ticks, WaitFull closed before/between/after "
+    "rule": "(full histories ask with '?' or a stale run id while the source announces its own; some begin with S<k>: the first k stream bytes in the same write as the RDB.) (tagl: the command stream of `tags` with a 70 001-byte and a 1 048 601-byte value in the cycle, cuts before, inside and after them.) (reconnects answered with +CONTINUE and the first 1..5000 backlog bytes in one segment: steps D<k>/X<k>.) inc|cont|full|tags: timed histories (bursts of 1..20000 bytes incl. 8191/8192/8193, idle ticks, WaitFull closed before/between/after "
             "traffic, 0-3 graceful drops, resets with bytes in flight, settle points) for four set-ups (runIncrementalSync; "
             "sendPSyncCmd answered +CONTINUE; +FULLRESYNC followed by an RDB; runIncrementalSync feeding the real parseSourceCommand with a "
             "RESP command stream, whose per-command Offset is compared with tag base + command end), start offsets 0, small, around 2^32, above 2^40; thorough adds "
